@@ -16,7 +16,7 @@ import re
 import core
 
 KINDS = ("process", "process16", "procrelay", "policy", "hdrc", "utf16c", "authpayload", "matchauth", "clientip",
-         "paa", "usertok", "handshake", "tunnel", "config")
+         "paa", "usertok", "handshake", "tunnel", "config", "ntlm")
 MAX_LINE = 1500      # characters of a case line: keeps the generated file small
 SAMPLE = 150
 
@@ -150,6 +150,40 @@ def term(c):
                                                 coq_bool(flags[1]), coq_bool(flags[2]), lens[0], lens[1], lens[2], lens[3], lens[4])
         e = "{| e_idp_ok := %s; e_keytab_loadable := %s; e_krb5conf_ok := %s |}" % (coq_bool(envb[0]), coq_bool(envb[1]), coq_bool(envb[2]))
         return "config_obs %s %s" % (r, e)
+    if k == "ntlm":
+        db = "[]" if f[0] == "-" else "[" + "; ".join(
+            "(%s, %s)" % (blist(hexf(e.split("=")[0])), blist(hexf(e.split("=")[1]))) for e in f[0].split(";")) + "]"
+        t = 0
+        negcount = 0
+        nonce = {}
+        ops = []
+        for idx, o in enumerate(f[1].split(","), 1):
+            w, sess, m = o.split("|")
+            t += int(w)
+            p = m.split(":")
+            if p == ["neg"]:
+                if hexf(sess):
+                    negcount += 1
+                    nonce[idx] = negcount
+                msg = "NNegotiate"
+            elif p == ["negbad"]:
+                msg = "NNegotiateBad"
+            elif p[0] == "auth" and len(p) == 4:
+                msg = "(NAuth %s (RespFor %s %s %d%%N))" % (blist(hexf(p[1])), blist(hexf(p[1])), blist(hexf(p[2])), nonce.get(int(p[3]), 0))
+            elif p[0] == "authas" and len(p) == 5:
+                msg = "(NAuth %s (RespFor %s %s %d%%N))" % (blist(hexf(p[1])), blist(hexf(p[2])), blist(hexf(p[3])), nonce.get(int(p[4]), 0))
+            elif p[0] == "authbad" and len(p) == 2:
+                msg = "(NAuth %s RespBad)" % blist(hexf(p[1]))
+            elif p == ["b64bad"]:
+                msg = "NBadBase64"
+            elif p == ["garbage"]:
+                msg = "NGarbage"
+            elif p == ["empty"]:
+                msg = "NEmpty"
+            else:
+                return None
+            ops.append("((%d)%%Z, %s, %s)" % (t, blist(hexf(sess)), msg))
+        return "ntlm_obs %s [%s]" % (db, "; ".join(ops))
     if k == "usertok":
         tok = coq_jwe(f[3])
         if tok is None or not re.match(r"^-?\d+$", f[2]):
@@ -181,7 +215,7 @@ def run(prop, cases, log):
     with open(path, "w") as f:
         f.write("(* generated by lib/coqcases.py: %d sampled cases of %s re-evaluated inside Coq *)\n" % (len(cs), prop))
         f.write("From Coq Require Import List NArith ZArith Bool.\nFrom Coq.Strings Require Import Byte.\n")
-        f.write("From RDPGW Require Import Lib.Bytes Gen.Consts Model.Packets Model.Processor Model.Policy Model.Token Model.Config Spec.Show.\n")
+        f.write("From RDPGW Require Import Lib.Bytes Gen.Consts Model.Packets Model.Processor Model.Policy Model.Token Model.Config Model.Ntlm Spec.Show.\n")
         f.write("Import ListNotations.\n\n")
         for i, c in enumerate(cs):
             f.write("Definition c%d : bool := bytes_eqb (%s) %s.\n" % (i, term(c), blist(c.model.encode())))
